@@ -35,6 +35,7 @@ func init() {
 			{ID: "C11-R9", Title: "VMs are not recycled across configurations", Floor: 1, Run: vmNotPooled},
 			{ID: "C11-R10", Title: "Import returns a module object built in that call (shared with C14)", Floor: 2, Run: importersReturnFreshModules},
 			{ID: "C11-R11", Title: "options record into the deferred tables on every path", Floor: 2, Run: optionsRecordUnconditionally},
+			{ID: "C11-R12", Title: "the deny-list and the overrides only grow", Floor: 2, Run: deferredTablesOnlyGrow},
 		},
 	})
 }
